@@ -357,8 +357,9 @@ Definition fastlog_impls : list (string * string) :=
    ("packet.LLC", "KLLC"); ("packet.LLDP", "KLLDP"); ("packet.MACEntry", "mac_ops"); ("packet.NameEntry", "name_ops");
    ("packet.Notification", "notif_ops"); ("packet.RRCP", "KRRCP"); ("packet.SNAP", "KSNAP"); ("packet.UDP", "KUDP")]%string.
 
-(* the appenders whose text comes from the standard library (a parameter of the model), each with EVERY function it
-   calls today (go/ast: package functions qualified, methods and builtins by name, sorted, duplicates removed).
-   A re-implementation of a rendering inside fastlog (a fast path, a hand-written formatter) changes this table. *)
+(* the appenders whose text comes from the standard library (a parameter of the model), each with the calls that LEAVE
+   package fastlog today (go/ast: standard-library functions qualified, methods on values other than the Line by name,
+   collected through package-local helpers; builtins and package-local calls are not listed, so refactoring inside the
+   package is silent).  Replacing a standard rendering by a hand-written one changes this table. *)
 Definition stdlib_calls : string :=
-  "Duration:String,appendByte,copy;Error:Error,appendByte,copy;IP:AppendTo,IsValid,appendByte,copy;Int:copy,make,strconv.AppendInt;Sprintf:appendByte,copy,fmt.Sprintf;Stringer:IsNil,Kind,String,appendByte,copy,reflect.ValueOf;Struct:FastLog,IsNil,Kind,reflect.ValueOf;Time:AppendFormat,appendByte,copy,make"%string.
+  "Duration:String;Error:Error;IP:AppendTo,IsValid;Int:strconv.AppendInt;Sprintf:fmt.Sprintf;Stringer:IsNil,Kind,String,reflect.ValueOf;Struct:FastLog,IsNil,Kind,reflect.ValueOf;Time:AppendFormat"%string.
